@@ -12,8 +12,22 @@
 (*             then is a digest of the returned (file name, digest) entries*)
 (*    covered  the names and content ids of the files                      *)
 (*             <db>/immutable/<n>.<chunk|primary|secondary>,               *)
-(*             lo <= n <= beacon, recomputed by the harness from the real  *)
-(*             directory, sorted                                           *)
+(*             lo <= n <= beacon, as they are on disk when the computation *)
+(*             runs, recomputed by the harness from the real directory,    *)
+(*             sorted: [name, cid, kind].  kind "reg" = a regular file.    *)
+(*             A directory or a dangling link under such a name is no      *)
+(*             file.  Whether a symbolic link to a regular file is an      *)
+(*             immutable file of that content or just another directory    *)
+(*             entry is not decided by the property: it is kept apart      *)
+(*             (kind "link", cid of what is read through it), so a node    *)
+(*             holding one is only compared with nodes holding the same.   *)
+(*    stale    the computation consulted an explicit cache that holds the  *)
+(*             digest of a file that changed on disk since (the statement  *)
+(*             promises cache independence over the same unchanged files   *)
+(*             only): not constrained.  A computation without cache is     *)
+(*             always judged -- also when the same long-lived digester     *)
+(*             object computed before the files changed (descriptive:      *)
+(*             afterChange = same_object | new_object | none | cached).    *)
 (*    cache    the computation consulted a digest cache left by earlier    *)
 (*             computations over the same, unchanged files                 *)
 (*    res      "ok" (root = the Merkle root computed) | "err" | "panic"    *)
@@ -45,13 +59,14 @@ TraceInit == l = 1 /\ seen = {}
 Determined(e) == \A s \in seen : (s.op = e.op /\ s.covered = e.covered) => s.root = e.root
 NamesOf(c)     == {c[i].name : i \in DOMAIN c}
 Perturbs(c, d) == c # d /\ NamesOf(d) \subseteq NamesOf(c)    \* d is c with files changed and / or missing
-Sensitive(e)  == ~e.cache => \A s \in seen :
-                    (s.op = e.op /\ ~s.cache /\ s.root = e.root) =>
+Ambiguous(c)  == \E i \in DOMAIN c : c[i].kind = "link"
+Sensitive(e)  == (~e.cache /\ ~Ambiguous(e.covered)) => \A s \in seen :
+                    (s.op = e.op /\ ~s.cache /\ ~Ambiguous(s.covered) /\ s.root = e.root) =>
                         ~Perturbs(s.covered, e.covered) /\ ~Perturbs(e.covered, s.covered)
 
 TDigest ==
     /\ IsEvent("Digest")
-    /\ IF E.res = "ok"
+    /\ IF E.res = "ok" /\ ~(E.cache /\ E.stale)
        THEN /\ Determined(E) /\ Sensitive(E)
             /\ seen' = seen \cup {[op |-> E.op, covered |-> E.covered, root |-> E.root, cache |-> E.cache]}
        ELSE UNCHANGED seen
